@@ -534,6 +534,7 @@ impl<K: SimKey> World<K> {
                     }
                 }
                 let before = if *abort { Some(self.disk_fingerprint()) } else { None };
+                let fds_before = with_sim(|s| s.open_fd_paths());
                 let cas = self.cas.as_ref().unwrap();
                 let res: Result<(), String> = interpose::enter(|| {
                     let mut tx = cas.put(key.clone()).map_err(|e| format!("put(): {e}"))?;
@@ -559,6 +560,15 @@ impl<K: SimKey> World<K> {
                     let after = self.disk_fingerprint();
                     if before.as_ref() != Some(&after) {
                         return Err(fail(&["C13"], "abort-left-trace", i, format!("an abandoned transaction changed the directory: before={before:?} after={after:?}")));
+                    }
+                    // "its staging file is gone": not merely unlinked - a descriptor left open keeps
+                    // the inode (and everything written through) allocated and accumulates
+                    let fds_after = with_sim(|s| s.open_fd_paths());
+                    // (only additions count: in Async mode the model may still list descriptors that the
+                    // fdatasync worker has closed, and the transaction can reuse their numbers)
+                    let leaked: Vec<&String> = fds_after.iter().filter(|p| !fds_before.contains(p)).collect();
+                    if !leaked.is_empty() {
+                        return Err(fail(&["C13"], "abort-leaked-descriptor", i, format!("after an abandoned transaction descriptors are still open on {leaked:?}")));
                     }
                     let got = interpose::enter(|| cas.get(&key));
                     let want = prev.map(|p| self.contents[p].clone());
